@@ -7,8 +7,13 @@
     M n <rows> m q_1..q_m coin_1..coin_m                     -> outcomes, flags, tableau
     Z n                                                      -> zero state
     MAT1 name k / MAT2 name k                                -> gate matrix (re im …, row major)
+    SV n ngates (name a b k)*     -> state vector of the simulator model from |0…0> (re im …) |
+                                     per stabiliser row: does `pauliOp n row` fix it? | tableau
+    PO n row (re im)*2^n          -> `pauliOp n row` applied to the given state vector
 -/
 import QV.Model.CliffordMat
+import QV.Model.CliffordSV
+import QV.Model.Table
 open QV QV.Cliff
 
 structure Rd where
@@ -69,9 +74,42 @@ def nextGate : P (Option Gate) := do
     | "CRX" => some (.CRX a b k) | "CRY" => some (.CRY a b k) | "CRZ" => some (.CRZ a b k)
     | _ => none
 
+def showGIs (a : Array GI) : String := " ".intercalate (a.toList.map GI.toStr)
+
+/-- `pauliOp n w` on a materialised state, materialising after every tensor factor. -/
+def pauliOpTab (n : Nat) (w : Row) (a : Array GI) : Array GI :=
+  let b := (List.range n).foldr (fun k s => tableOf n (pauliList [k] w (ofTable n s))) a
+  tableOf n (fun x => sgn w.r * ofTable n b x)
+
 def handle : P String := do
   let cmd ← nextTok
   match cmd with
+  | "SV" =>
+    let n ← nextNat
+    let ng ← nextNat
+    let mut T := zeroState n
+    let mut ψ := tableOf n (zeroKet n)
+    let mut ok := true
+    for _ in [0:ng] do
+      match (← nextGate) with
+      | some g =>
+        T := (Cliff.applyGate g T).map (norm n)
+        ψ := tableOf n (QV.runCircuit [g.mgate] (ofTable n ψ))
+      | none => ok := false
+    if !ok then pure "bad-gate" else
+    let direct := tableOf n (pauliOp n (getRow T n) (ofTable n ψ))   -- row n by the definition itself
+    let flags := (List.range n).map fun i => bit (pauliOpTab n (getRow T (n + i)) ψ == ψ)
+    let d := bit (n == 0 || direct == ψ)
+    pure s!"{showGIs ψ} | {String.ofList flags}{d} | {showT n T}"
+  | "PO" =>
+    let n ← nextNat
+    let w := rowOfString n (← nextTok)
+    let mut a : Array GI := Array.mkEmpty (2 ^ n)
+    for _ in [0:2 ^ n] do
+      let re ← nextInt
+      let im ← nextInt
+      a := a.push ⟨re, im⟩
+    pure (showGIs (tableOf n (pauliOp n w (ofTable n a))))
   | "G" =>
     let n ← nextNat
     let T ← nextTableau n
